@@ -466,7 +466,8 @@ def run(ctx):
     # K-jinja on the record member loops
     frags = [{'gen': 'cpp', 'template': 'header/record.jinja2.hpp', 'attr': 'fields', 'index': i, 'decl_class': 'Record'} for i in range(3)] + \
             [{'gen': 'java', 'template': 'record.jinja2.java', 'attr': 'fields', 'index': i, 'decl_class': 'Record'} for i in range(4)] + \
-            [{'gen': 'cpp', 'template': 'header/interface.jinja2.hpp', 'attr': 'methods', 'index': 0, 'decl_class': 'Interface'}]
+            [{'gen': 'cpp', 'template': 'header/interface.jinja2.hpp', 'attr': 'methods', 'index': 0, 'decl_class': 'Interface'},
+             {'gen': 'java', 'template': 'interface.jinja2.java', 'attr': 'methods', 'index': 0, 'decl_class': 'Interface', 'macros': ['parameters']}]
     jc = [{'files': f, 'root': list(f)[0], 'options': opts, 'fragments': frags} for f in progs[:ctx.n(12, 60)]]
     mism, flat = kjinja.run(ctx, 'c02', jc)
     if flat is not None:
